@@ -1,6 +1,6 @@
 (* C12 — rate-limited writers are always released (no lost wake-up). *)
 From Coq Require Import List.
-From STH Require Import Reach RateLimit.
+From STH Require Import Reach RateLimit RateLimitN.
 
 (* Finite-control model of flushTick / Flush / run (two writers, the flusher and explicit Flush callers, the
    1-slot flushNow signal, the notice channel, outstanding work abstracted to zero / non-zero, the rate test to a
@@ -16,3 +16,37 @@ Theorem C12_unrepaired_flush_loses_wakeup :
   existsb (fun s => mon_beq (m s) MBad) (get reach_orig) = true.
 Proof. exact orig_bad. Qed.
 Print Assumptions C12_unrepaired_flush_loses_wakeup.
+
+(* ---- ANY number of writers (RateLimitN.v).  The same protocol over a list of writers of any length n, one run loop with its ticker and
+   explicit Flush calls; proved by an invariant instead of an exhausted state space.
+   SAFETY: in every reachable state, when a Flush completes (the step out of FClosing - reached after the commit AND on the repaired
+   no-work path), EVERY writer that had registered for the notice or was waiting on it is released, whenever it registered. ---- *)
+Theorem C12_no_lost_wakeup_any_number_of_writers :
+  forall n s s', reachN n s -> fstepN s s' -> flN s = FClosing ->
+  forall i p, nth_error (wsN s) i = Some p -> pending p = true -> nth_error (wsN s') i = Some WDone.
+Proof. exact no_lost_wakeup_N. Qed.
+Print Assumptions C12_no_lost_wakeup_any_number_of_writers.
+
+(* PROGRESS ("as long as flushes keep succeeding no caller waits forever"): while a writer waits the flusher can step ... *)
+Theorem C12_flusher_is_enabled_while_a_writer_waits :
+  forall n s i, reachN n s -> nth_error (wsN s) i = Some WWaiting -> exists s', fstepN s s'.
+Proof. exact waiting_writer_flusher_enabled. Qed.
+Print Assumptions C12_flusher_is_enabled_while_a_writer_waits.
+(* ... every step of the flusher releases the writer or strictly decreases a measure that is at most 5 ... *)
+Theorem C12_every_flusher_step_releases_or_progresses :
+  forall n s s' i, reachN n s -> nth_error (wsN s) i = Some WWaiting -> fstepN s s' ->
+  nth_error (wsN s') i = Some WDone \/ (nth_error (wsN s') i = Some WWaiting /\ mu s' < mu s).
+Proof. exact flusher_step_releases_or_progresses. Qed.
+Print Assumptions C12_every_flusher_step_releases_or_progresses.
+(* ... and no step of another writer undoes that: under weak fairness of the flusher a writer waits for at most 5 of its steps. *)
+Theorem C12_other_writers_do_not_delay_the_release :
+  forall n s s' i j, reachN n s -> nth_error (wsN s) i = Some WWaiting -> wstepN j s s' ->
+  nth_error (wsN s') i = Some WWaiting /\ mu s' <= mu s.
+Proof. exact other_writers_do_not_delay. Qed.
+Print Assumptions C12_other_writers_do_not_delay_the_release.
+
+(* the two-writer model above - the one the regenerated skeleton facts (skeleton_ok_C12) are stated against - is the instance n = 2 *)
+Theorem C12_two_writer_model_is_an_instance :
+  forall s s', In s' (step true s) -> stepN (absN s) (absN s').
+Proof. exact two_writer_model_is_an_instance. Qed.
+Print Assumptions C12_two_writer_model_is_an_instance.
